@@ -257,9 +257,11 @@ PROPS["C58"] = dict(
         "in declaration order, each once, none after the first denier (pending dials with and without a known peer id); "
         "each constructible FromSwarm event reaches every field "
         "exactly once in order; a handler event wrapped Left(Left)/Left(Right)/Right reaches exactly the matching field "
-        "with its payload unchanged."),
+        "with its payload unchanged; ConnectionHandlerSelect::poll_close (the combined handler the derive builds) under "
+        "every readiness schedule of two handlers (symbolic 3-step scripts of Pending / event / done) delivers every "
+        "close event once, in order, tagged with its handler, and reports completion only when both are done."),
     bounds="three fields; one callback/event per harness; FromSwarm kinds {NewListener, NewExternalAddrCandidate, ExternalAddrConfirmed, ExternalAddrExpired}; fields contribute no dial addresses; unwind 8",
-    outside="contents of the concatenated address list for pending dials (Vec<Multiaddr> concatenation exhausts 40 GB in CBMC even for one address); ConnectionHandlerSelect polling/poll_close, ToSwarm event mapping in poll(), FromSwarm events that need a live connection (ConnectionEstablished/Closed, DialFailure, ...), #[behaviour(to_swarm)] variants, generic fields",
+    outside="contents of the concatenated address list for pending dials (Vec<Multiaddr> concatenation exhausts 40 GB in CBMC even for one address); ConnectionHandlerSelect::poll and on_connection_event routing, ToSwarm event mapping in poll(), FromSwarm events that need a live connection (ConnectionEstablished/Closed, DialFailure, ...), #[behaviour(to_swarm)] variants, generic fields",
     stubs=[TRACING, FMT], assumptions=[FORGET], hooks=[],
 )
 
